@@ -349,18 +349,34 @@ func runCheck(c *Check, ctx *CheckCtx) int {
 	var results []unitResult
 	total := newStats()
 	self, _ := os.Executable()
-	for ui, u := range units {
+	// a check's units share 12 minutes (quick) or 30 minutes (thorough): each unit may use an equal share of what is
+	// left when it starts (at least 30 s), so units that finish early leave their time to the later ones; the shallow
+	// units (bound <= 1, enumerators) run first, the deep ones (bound >= 2) last. A unit that hits its share reports
+	// time_cap_hit and the bound it completed.
+	totalBudget := 12 * time.Minute
+	if ctx.Tier == "thorough" {
+		totalBudget = 30 * time.Minute
+	}
+	checkDeadline := time.Now().Add(totalBudget)
+	order := make([]int, 0, len(units))
+	for i, u := range units {
+		if u.Bound < 2 {
+			order = append(order, i)
+		}
+	}
+	for i, u := range units {
+		if u.Bound >= 2 {
+			order = append(order, i)
+		}
+	}
+	for oi, ui := range order {
+		u := units[ui]
 		t0 := time.Now()
 		budget := u.Budget
 		if budget == 0 {
-			// a check's units share 12 minutes (quick) or 30 minutes (thorough); a unit that hits its share reports time_cap_hit
-			total := 12 * time.Minute
-			if ctx.Tier == "thorough" {
-				total = 30 * time.Minute
-			}
-			budget = total / time.Duration(len(units))
-			if budget < 90*time.Second {
-				budget = 90 * time.Second
+			budget = time.Until(checkDeadline) / time.Duration(len(order)-oi)
+			if budget < 30*time.Second {
+				budget = 30 * time.Second
 			}
 		}
 		deadline := time.Now().Add(budget)
